@@ -1288,3 +1288,124 @@ def scenarios_handlers(seed, n):
             sc['handlers'] = {'globals': call}
         out.append(sc)
     return out
+
+
+def scenarios_history(seed, n, threads=0):
+    """C10: random histories of alloc / drop / gc / churn / call over a few slots and a pool of short-lived type expressions"""
+    g = random.Random(seed)
+    out = []
+    NT = 12
+    for i in range(n):
+        r = random.Random(g.randrange(1 << 62))
+        hist = []
+        live = set()
+        for _ in range(r.randint(5, 25)):
+            p = r.random()
+            if p < 0.3 or not live:
+                s = r.randrange(4)
+                hist.append(['alloc', s, r.randrange(NT)])
+                live.add(s)
+            elif p < 0.45:
+                s = r.choice(sorted(live))
+                hist.append(['drop', s])
+                live.discard(s)
+            elif p < 0.55:
+                hist.append(['gc'])
+            elif p < 0.65:
+                hist.append(['churn', r.randrange(NT), r.randint(1, 6)])
+            else:
+                hist.append(['call', r.choice(sorted(live)), r.choice([0, 0, 0, 1, 1, 2])])
+        # the classic: build, use, drop, (collect), re-create ANOTHER type of the same size, use
+        if r.random() < 0.4:
+            a, b = r.sample(range(NT), 2)
+            hist += [['alloc', 0, a], ['call', 0, 0], ['drop', 0], ['gc'], ['alloc', 1, b], ['call', 1, 0], ['alloc', 0, b], ['call', 0, 0]]
+        out.append({'id': f'hi{seed}:{i}', 'op': 'history', 'hist': hist, 'threads': threads if r.random() < 0.3 else 0, 'stream': 'history'})
+    return out
+
+
+def scenarios_lru(seed, n):
+    g = random.Random(seed)
+    out = []
+    for i in range(n):
+        r = random.Random(g.randrange(1 << 62))
+        m = r.randint(1, 5)
+        keys = [r.randrange(m + r.randint(0, 4)) for _ in range(r.randint(0, 30))]
+        out.append({'id': f'lru{seed}:{i}', 'op': 'lru', 'maxsize': m, 'keys': keys, 'stream': 'lru'})
+    return out
+
+
+IO_STRS = ['', 'a', 'plain text', 'yes', 'no', 'null', '~', '2020-01-02', '1e3', '- a', 'k: v', 'é ü 日本', 'tab\there', 'line1\nline2', ' lead', 'trail ',
+           '"quoted"', "it's", '#hash', '{brace}', '1', '1.5', 'True', '0x10', 'a' * 90]
+
+
+def scenarios_io(seed, n):
+    """C19: sink/source kind x JSON/YAML options x typed values from the representable fragment"""
+    g = random.Random(seed)
+    out = []
+    for i in range(n):
+        ge = Gen(g.randrange(1 << 62), max_depth=2, classes=True, noinit=False)
+        r = ge.r
+
+        def rty(depth):
+            p = r.random()
+            if depth >= 2 or p < 0.4:
+                return r.choice(['int', 'str', 'bool', 'float', 'NoneType', {'union': ['int', 'NoneType']}, {'lit': ['a', {'i': '1'}]}])
+            if p < 0.6:
+                return {'seq': [r.choice(['list', 'Sequence', 'tuple']), rty(depth + 1)]}
+            if p < 0.75:
+                return {'map': ['dict', ['str', rty(depth + 1)]]}
+            if p < 0.85:
+                return {'tuple': [rty(depth + 1) for _ in range(r.randint(1, 3))]}
+            name = ge.fresh('J')
+            fields = []
+            seen_default = False
+            for fn in r.sample(['x', 'y', 'my_field', 'val'], r.randint(1, 3)):
+                f = {'name': fn, 'ty': rty(depth + 1)}
+                fields.append(f)
+            d = {'name': name, 'fields': fields, 'opts': {}, 'hook': None}
+            if r.random() < 0.3:
+                d['opts']['rename'] = r.choice(['camel', 'kebab', 'pascal'])
+            ge.decl['classes'].append(d)
+            ge.class_info[name] = d
+            return {'cls': [name, []]}
+
+        def rval(ty):
+            if ty == 'str':
+                return r.choice(IO_STRS)
+            if ty == 'float':
+                return r.choice([0.0, 1.5, -2.25, 1e10, 3.0, 1e-5, 123456.789])
+            if ty == 'int':
+                return r.choice([0, 1, -7, 2 ** 40, 10 ** 20])
+            if isinstance(ty, dict) and 'seq' in ty:
+                return [rval(ty['seq'][1]) for _ in range(r.randint(0, 3))]
+            if isinstance(ty, dict) and 'map' in ty:
+                return {r.choice(IO_STRS[1:12]) + str(j): rval(ty['map'][1][1]) for j in range(r.randint(0, 3))}
+            if isinstance(ty, dict) and 'tuple' in ty:
+                return [rval(t) for t in ty['tuple']]
+            if isinstance(ty, dict) and 'cls' in ty:
+                d = ge.class_info[ty['cls'][0]]
+                return {f['name']: rval(f['ty']) for f in d['fields']}
+            return ge.valid(ty, 2)
+
+        ty = rty(0) if r.random() < 0.65 else rty(1)
+        sink = r.choice(['strpath', 'path', 'stringio', 'textfile', 'yaml_all', 'yaml_all_path'])
+        if isinstance(ty, dict) and 'cls' in ty and r.random() < 0.6:
+            sink = r.choice(['method', 'method_file', 'method_stream'])
+        fmt = r.choice(['json', 'yaml']) if not sink.startswith('yaml_all') else 'yaml'
+        if fmt == 'json':
+            opts = {'indent': r.choice([None, 0, 2, '\t']), 'sort_keys': r.random() < 0.5}
+        else:
+            opts = {'indent': r.choice([None, 2, 4]), 'width': r.choice([None, 20, 80]), 'allow_unicode': r.random() < 0.5,
+                    'explicit_start': r.random() < 0.5, 'explicit_end': r.random() < 0.5,
+                    'default_style': r.choice([None, None, '"', '|', '>']), 'default_flow_style': r.choice([None, True, False]),
+                    'sort_keys': r.random() < 0.5}
+            if sink.startswith('yaml_all'):
+                opts['explicit_start'] = True
+        try:
+            wire = ENC.enc(rval(ty))
+            json.dumps(wire)
+        except Exception:
+            continue
+        out.append({'id': f'io{seed}:{i}', 'decl': ge.decl, 'op': 'io', 'ty': ty, 'val': wire, 'fmt': fmt, 'sink': sink, 'opts': opts,
+                    'ndocs': r.randint(1, 4), 'enc': r.choice(['utf-8', 'utf-8', 'latin-1', 'ascii']), 'is_path': sink in ('strpath', 'path', 'method_file', 'yaml_all_path'), 'spell': r.randrange(2), 'stream': 'io-' + fmt})
+    return out
